@@ -15,6 +15,7 @@ import (
 	"fmt"
 	"io"
 	"runtime/metrics"
+	"strings"
 	"syscall"
 	"testing"
 
@@ -419,33 +420,51 @@ func c08TrimExt(a *vfAttrs) {
 func c08Framing(u *vfUnit) {
 	r := u.Rng.Fork()
 	type reader struct {
-		name string
-		fn   func(rd io.Reader) (payloadLen int, err error)
+		name  string
+		fn    func(rd io.Reader) (payloadLen int, err error)
+		limit uint32 // 0 = maxMsgLength
 	}
 	alloc := newAllocator()
+	big := make([]byte, 1<<20) // a caller-supplied receive buffer larger than the frame limit
+	mid := make([]byte, 1<<16)
 	readers := []reader{
 		{"pkg.recvPacket(alloc=nil)", func(rd io.Reader) (int, error) {
 			_, b, err := recvPacket(rd, nil, 0)
 			return len(b) + 1, err
-		}},
+		}, 0},
 		{"pkg.recvPacket(alloc)", func(rd io.Reader) (int, error) {
 			_, b, err := recvPacket(rd, alloc, 7)
 			alloc.ReleasePages(7)
 			return len(b) + 1, err
-		}},
+		}, 0},
 		{"fx.RawPacket.ReadFrom", func(rd io.Reader) (int, error) {
 			var q sshfx.RawPacket
 			err := q.ReadFrom(rd, nil, maxMsgLength)
 			return q.Data.Len() + 5, err
-		}},
+		}, 0},
 		{"fx.RequestPacket.ReadFrom", func(rd io.Reader) (int, error) {
 			var q sshfx.RequestPacket
 			err := q.ReadFrom(rd, make([]byte, 16), maxMsgLength)
 			return -1, err
-		}},
+		}, 0},
+		{"fx.RawPacket.ReadFrom(buffer 1 MiB)", func(rd io.Reader) (int, error) {
+			var q sshfx.RawPacket
+			err := q.ReadFrom(rd, big, maxMsgLength)
+			return q.Data.Len() + 5, err
+		}, 0},
+		{"fx.RequestPacket.ReadFrom(buffer 1 MiB)", func(rd io.Reader) (int, error) {
+			var q sshfx.RequestPacket
+			err := q.ReadFrom(rd, big, maxMsgLength)
+			return -1, err
+		}, 0},
+		{"fx.RawPacket.ReadFrom(limit 34000, buffer 64 KiB)", func(rd io.Reader) (int, error) {
+			var q sshfx.RawPacket
+			err := q.ReadFrom(rd, mid, 34000)
+			return q.Data.Len() + 5, err
+		}, 34000},
 	}
 	body := vfPkt{Type: rfStat, ID: 9, Path: "/some/path"}.Body()
-	lengths := []uint32{0, 1, 2, 4, uint32(len(body)) - 1, uint32(len(body)), uint32(len(body)) + 1, 34000, maxMsgLength - 1, maxMsgLength, maxMsgLength + 1, 1 << 20, 1<<31 - 1, 1 << 31, 1<<32 - 1}
+	lengths := []uint32{0, 1, 2, 4, uint32(len(body)) - 1, uint32(len(body)), uint32(len(body)) + 1, 33999, 34000, 34001, 60000, 65536, 70000, maxMsgLength - 1, maxMsgLength, maxMsgLength + 1, 1 << 20, 1<<31 - 1, 1 << 31, 1<<32 - 1}
 	for i := 0; i < 6; i++ {
 		lengths = append(lengths, r.Uint32())
 	}
@@ -484,11 +503,15 @@ func c08Framing(u *vfUnit) {
 				if rdr.name[:2] == "fx" {
 					minLen = 5 // filexfer requires type + request id
 				}
+				limit := rdr.limit
+				if limit == 0 {
+					limit = maxMsgLength
+				}
 				switch {
-				case l > maxMsgLength:
+				case l > limit:
 					u.Count("frames_refused_long", 1)
 					if err == nil {
-						u.Violation("frame-long-accepted:"+rdr.name, fmt.Sprintf("%s accepted a frame of declared length %d (> 256 KiB)", rdr.name, l), w)
+						u.Violation("frame-long-accepted:"+rdr.name, fmt.Sprintf("%s accepted a frame of declared length %d (limit %d)", rdr.name, l, limit), w)
 					}
 					if cr.n > 4 {
 						u.Violation("frame-long-body-read:"+rdr.name, fmt.Sprintf("%s read %d body bytes of a refused %d-byte frame", rdr.name, cr.n-4, l), w)
@@ -507,7 +530,7 @@ func c08Framing(u *vfUnit) {
 					if err == nil && n >= 0 && uint32(n) != l {
 						u.Violation("frame-length-mismatch:"+rdr.name, fmt.Sprintf("%s returned %d bytes for a frame of declared length %d", rdr.name, n, l), w)
 					}
-					if rdr.name != "fx.RequestPacket.ReadFrom" && err != nil && l >= 5 {
+					if !strings.HasPrefix(rdr.name, "fx.RequestPacket.ReadFrom") && err != nil && l >= 5 {
 						u.Violation("frame-valid-refused:"+rdr.name, fmt.Sprintf("%s refused a complete frame of length %d: %v", rdr.name, l, err), w)
 					}
 				}
